@@ -98,6 +98,9 @@ QualKinds == DOMAIN QualAnn
 
 AnnKinds == {"noann", "int", "listint", "optstr", "class", "fwd", "none", "pep585", "ctype",
              "union604", "callable", "literal", "newtype", "typevar", "config"} \cup QualKinds
+\* "tupleann": a tuple of types written as a return annotation, `-> (int, str)` - not a type the
+\* renderer knows; it is dropped silently (nothing is printed, nothing raised)
+Unrendered == {"tupleann"}
 \* what a custom field's storage_type may be
 StorageKinds == QualKinds \cup {"class", "listint"}
 
@@ -148,7 +151,7 @@ SigWF(sig) ==
         \* no parameter without a default after a positional one with a default
         /\ \A i, j \in 1..n : (i < j /\ ps[i].d /\ ps[i].k \in {"posonly", "pos"}
                                  /\ ps[j].k \in {"posonly", "pos"}) => ps[j].d
-        /\ sig.ret \in AnnKinds \cup {"noret"}
+        /\ sig.ret \in AnnKinds \cup {"noret"} \cup Unrendered
 
 RECURSIVE FieldWF(_)
 FieldWF(f) ==
@@ -244,7 +247,7 @@ AnnStrIn(a) == IF a \in QualKinds THEN Wrap(QualAnn[a][1], Dotted(QualRefIn(a)))
 \* annotation objects get_annotation_typestr has no branch for (get_retval_annotation swallows the
 \* error and the return annotation is dropped): none of the modelled kinds since the fix that
 \* renders PEP 604 unions, TypeVar and NewType
-Unrendered == {}
+\* (Unrendered: defined with the annotation kinds above)
 
 RECURSIVE StorageStr(_)
 ItemStr(item) ==         \* ListField.__init__: List[field.storage_type] | List[cls] | List[type(field)]
